@@ -8,6 +8,7 @@ pub mod c02;
 pub mod c03;
 pub mod c05;
 pub mod c06;
+pub mod c16;
 pub mod c17;
 
 pub struct Prop {
@@ -18,7 +19,7 @@ pub struct Prop {
 }
 
 pub fn all() -> Vec<Prop> {
-    vec![c01::PROP, c02::PROP, c03::PROP, c05::PROP, c06::PROP, c17::PROP]
+    vec![c01::PROP, c02::PROP, c03::PROP, c05::PROP, c06::PROP, c16::PROP, c17::PROP]
 }
 
 pub fn lookup(id: &str) -> Option<Prop> {
